@@ -304,5 +304,5 @@ Definition txn_list (c : cfg) (now : N) (s : state) (readTs : N) (pw : list rec)
 
 (** The code as it is now (after the repairs left in /repo, see /verif/fixes). *)
 Definition current : cfg :=
-  {| fix_imm_order := false; fix_tomb_last := false; fix_db_dead := false; fix_db_rseek := false;
-     fix_txn_cf := false; fix_pend_cmp := false |}.
+  {| fix_imm_order := true; fix_tomb_last := true; fix_db_dead := true; fix_db_rseek := true;
+     fix_txn_cf := true; fix_pend_cmp := true |}.
